@@ -128,6 +128,15 @@ func c18Run(c core.Case) *core.Result {
 			}
 		}
 	}
+	sqExtra, sqSeen := map[string]string{}, map[string]bool{}
+	if rng.Intn(2) == 0 {
+		for _, m := range master {
+			if rng.Intn(3) == 0 {
+				sqExtra[m.Name] = []string{"TP:linear", "AN:alias1", "DS:description"}[rng.Intn(3)]
+			}
+		}
+		r.Count("cases_with_sq_fields_in_some_inputs", 1)
+	}
 	failInput, failRec := -1, -1
 	total, nonEmpty := 0, 0
 	for i, in := range ins {
@@ -166,6 +175,16 @@ func c18Run(c core.Case) *core.Result {
 		}
 		h := mkHeader(rng, in.refs, false)
 		h.Version = "1.6"
+		// Some references carry an extra @SQ field in the first input that
+		// has them and, at random, not in later ones: the merged header then
+		// replaces its reference by the later, bare one (which inherits the
+		// field), and every link handed out must follow.
+		for _, ref := range h.Refs() {
+			if v, ok := sqExtra[ref.Name()]; ok && (!sqSeen[ref.Name()] || rng.Intn(2) == 0) {
+				ref.Set(sam.NewTag(v[:2]), v[3:])
+			}
+			sqSeen[ref.Name()] = true
+		}
 		switch order {
 		case 0:
 			h.SortOrder = sam.Coordinate
